@@ -90,4 +90,24 @@ theorem reseed_forgets (s₁ s₂ : RngState) (seed : UInt64) (calls : List Call
     runCalls (cmb_random_initialize seed s₁) calls = runCalls (cmb_random_initialize seed s₂) calls :=
   runCalls_respects calls _ _ (init_overwrites_reads seed s₁ s₂)
 
+/-! ## 3. Threads: every piece of mutable state is thread-local -/
+
+/-- every variable with static storage duration that cmb_random.c (with the repository headers and the generated tables it
+    includes) declares is thread-local, or const, or a never-written never-address-taken file-local literal on the
+    allow-list (keyed by name and scope): nothing a sampler reads can be changed by another thread -/
+theorem all_state_thread_local : rngInventory.all VarInfo.threadSafe = true := by decide
+
+/-- every thread-local variable is accounted for (allow-list keyed by name AND function): it is part of the modelled state,
+    which `cmb_random_initialize` overwrites in full and `reseed_forgets` speaks about; or a function-static memo only
+    touched by its own function (argued in Rng/Inventory.lean, proved pure in §4); or foreign and unused -/
+theorem thread_locals_classified :
+    rngInventory.all (VarInfo.reseedOk rngStateVars rngSeedWrittenVars) = true := by decide
+
+/-- the state record of the model covers exactly inventory entries (no field invented by the translator) -/
+theorem state_vars_in_inventory : rngStateVars.all (fun k => rngInventory.any (fun v => v.key == k)) = true := by decide
+
+/-- the read set used in `reseed_forgets` is what `cmb_random_initialize` writes: every field a call reads is assigned by
+    seeding (the syntactic counterpart of `init_overwrites_reads`) -/
+theorem reads_subset_seed_writes : rngReadSet.all (fun f => rngSeedWrites.contains f) = true := by decide
+
 end CimbaModel.Props.C15
